@@ -211,7 +211,7 @@ func (g *gen) keyType() reflect.Type {
 	case n < 12:
 		return basicTypes[g.r.Pick(intKinds)]
 	case n < 14:
-		return basicTypes[g.r.Pick(uintKinds[:5])]
+		return basicTypes[g.r.Pick(uintKinds)]
 	case n < 15:
 		return zoo["main.MyStr"]
 	case n < 16:
@@ -396,6 +396,14 @@ func (g *gen) time() time.Time {
 		loc = time.FixedZone("CET", 3600)
 	default:
 		loc = time.FixedZone("X", -(g.r.Intn(12)*3600 + g.r.Intn(4)*900))
+	}
+	switch g.r.Intn(40) {
+	case 0:
+		loc = time.FixedZone("LMT", -(44*60 + 30)) // Africa/Monrovia before 1972
+	case 1:
+		loc = time.FixedZone("LMT", g.r.Intn(7200)-3600)
+	case 2:
+		loc = time.FixedZone("UTC", 3600*(1+g.r.Intn(3))) // a zone that is only named UTC
 	}
 	year := 1 + g.r.Intn(9998)
 	if g.r.Intn(3) > 0 {
@@ -666,7 +674,7 @@ func floatText(f float64, bits int) string {
 //
 //	scalars as Go prints them; strings and byte-ish slices quoted; nil; slices/arrays `[ v … ]`;
 //	maps `{ k v … }`; structs `{ v … }` (every field, in order); pointers `& v`;
-//	interfaces “ `Type` v ”; time.Time quoted RFC3339Nano + zone name; non-nil
+//	interfaces “ `Type` v ”; time.Time quoted "wall-clock offsetSeconds zoneName"; non-nil
 //	chan/func/unsafe.Pointer `make`.
 func valueText(t reflect.Type, v *val) string {
 	switch t.Kind() {
@@ -704,8 +712,8 @@ func valueText(t reflect.Type, v *val) string {
 		return b.String() + "}"
 	case reflect.Struct:
 		if t == timeType {
-			name, _ := v.T.Zone()
-			return strconv.Quote(v.T.Format(time.RFC3339Nano) + " " + name)
+			name, off := v.T.Zone()
+			return strconv.Quote(v.T.Format("2006-01-02T15:04:05.999999999") + " " + strconv.Itoa(off) + " " + name)
 		}
 		var b strings.Builder
 		b.WriteString("{ ")
@@ -865,18 +873,22 @@ func (p *valParser) value(t reflect.Type) (*val, error) {
 			if err != nil {
 				return nil, err
 			}
-			ts, zone, _ := strings.Cut(s, " ")
-			tt, err := time.Parse(time.RFC3339Nano, ts)
+			parts := strings.SplitN(s, " ", 3)
+			if len(parts) != 3 {
+				return nil, fmt.Errorf("time %q: want \"wall offsetSeconds zoneName\"", s)
+			}
+			off, err := strconv.Atoi(parts[1])
 			if err != nil {
 				return nil, err
 			}
-			_, off := tt.Zone()
-			if zone == "UTC" && off == 0 {
-				tt = tt.UTC()
-			} else {
-				tt = tt.In(time.FixedZone(zone, off))
+			loc := time.FixedZone(parts[2], off)
+			if parts[2] == "UTC" && off == 0 {
+				loc = time.UTC
 			}
-			v.T = tt
+			v.T, err = time.ParseInLocation("2006-01-02T15:04:05.999999999", parts[0], loc)
+			if err != nil {
+				return nil, err
+			}
 			break
 		}
 		if tok != "{" {
